@@ -981,6 +981,12 @@ func checkReflectArgs(method *reflect.Value, args []reflect.Value) error {
 				args[i] = a.Convert(in(i))
 				continue
 			}
+			// An enum value is handed on as a Symbol, a method can take
+			// it as a string.
+			if a.Kind() == reflect.String && in(i).Kind() == reflect.String {
+				args[i] = a.Convert(in(i))
+				continue
+			}
 			return fmt.Errorf("argument %d, a %s can not be used as a %s", i, a.Type(), in(i))
 		}
 	}
